@@ -9,71 +9,105 @@ import Refine.Model.PhysDist
 namespace Refine.Lemmas.PhysDist
 open Refine Refine.Model Refine.Model.Geom Refine.Model.PhysDist
 
-/-- what `min` satisfies (bit for bit on IEEE doubles that are not NaN and not `-0.0`; exactly on `ℝ`) -/
-structure SemiLat {β : Type} (op : β → β → β) : Prop where
-  comm : ∀ a b, op a b = op b a
-  assoc : ∀ a b c, op (op a b) c = op a (op b c)
-  idem : ∀ a, op a a = a
+/-- what `min` satisfies on a set `S` of values closed under it.  On `ℝ`: everywhere.  On IEEE doubles with
+    `MIN(a,b) = a < b ? a : b`: on the values that are neither NaN nor `-0.0` (then `<` is a strict total order and
+    numerically equal values are the same bit pattern), which is where the distance kernels take their values
+    (`sqrt` of a sum of squares) -/
+structure SemiLatOn {β : Type} (S : β → Prop) (op : β → β → β) : Prop where
+  closed : ∀ a b, S a → S b → S (op a b)
+  comm : ∀ a b, S a → S b → op a b = op b a
+  assoc : ∀ a b c, S a → S b → S c → op (op a b) c = op a (op b c)
+  idem : ∀ a, S a → op a a = a
+
+/-- the laws everywhere -/
+abbrev SemiLat {β : Type} (op : β → β → β) : Prop := SemiLatOn (fun _ => True) op
 
 section Fold
-variable {β : Type} {op : β → β → β}
+variable {β : Type} {S : β → Prop} {op : β → β → β}
 
 /-- the order of the semilattice: `a` is below `b` -/
 def Below (op : β → β → β) (a b : β) : Prop := op a b = a
 
-theorem below_antisymm (h : SemiLat op) {a b : β} (h1 : Below op a b) (h2 : Below op b a) : a = b := by
+theorem below_antisymm (h : SemiLatOn S op) {a b : β} (ha : S a) (hb : S b) (h1 : Below op a b)
+    (h2 : Below op b a) : a = b := by
   unfold Below at h1 h2
-  rw [← h1, h.comm, h2]
+  rw [← h1, h.comm a b ha hb, h2]
 
-theorem below_refl (h : SemiLat op) (a : β) : Below op a a := h.idem a
+theorem below_refl (h : SemiLatOn S op) (a : β) (ha : S a) : Below op a a := h.idem a ha
 
-theorem below_trans (h : SemiLat op) {a b c : β} (h1 : Below op a b) (h2 : Below op b c) : Below op a c := by
+theorem below_trans (h : SemiLatOn S op) {a b c : β} (ha : S a) (hb : S b) (hc : S c) (h1 : Below op a b)
+    (h2 : Below op b c) : Below op a c := by
   unfold Below at *
-  rw [← h1, h.assoc, h2]
+  rw [← h1, h.assoc a b c ha hb hc, h2]
 
-theorem op_below_left (h : SemiLat op) (a b : β) : Below op (op a b) a := by
+theorem op_below_left (h : SemiLatOn S op) (a b : β) (ha : S a) (hb : S b) : Below op (op a b) a := by
   unfold Below
-  rw [h.comm (op a b) a, ← h.assoc, h.idem]
+  rw [h.comm (op a b) a (h.closed a b ha hb) ha, ← h.assoc a a b ha ha hb, h.idem a ha]
 
-theorem op_below_right (h : SemiLat op) (a b : β) : Below op (op a b) b := by
+theorem op_below_right (h : SemiLatOn S op) (a b : β) (ha : S a) (hb : S b) : Below op (op a b) b := by
   unfold Below
-  rw [h.assoc, h.idem]
+  rw [h.assoc a b b ha hb hb, h.idem b hb]
 
-theorem below_op (h : SemiLat op) {z a b : β} (h1 : Below op z a) (h2 : Below op z b) : Below op z (op a b) := by
+theorem below_op (h : SemiLatOn S op) {z a b : β} (hz : S z) (ha : S a) (hb : S b) (h1 : Below op z a)
+    (h2 : Below op z b) : Below op z (op a b) := by
   unfold Below at *
-  rw [← h.assoc, h1, h2]
+  rw [← h.assoc z a b hz ha hb, h1, h2]
 
-theorem foldl_below_init (h : SemiLat op) (L : List β) (d : β) : Below op (L.foldl op d) d := by
+theorem foldl_mem (h : SemiLatOn S op) (L : List β) (d : β) (hd : S d) (hL : ∀ x ∈ L, S x) : S (L.foldl op d) := by
   induction L generalizing d with
-  | nil => exact below_refl h d
-  | cons x xs ih => exact below_trans h (ih (op d x)) (op_below_left h d x)
+  | nil => exact hd
+  | cons x xs ih =>
+    exact ih (op d x) (h.closed d x hd (hL x List.mem_cons_self)) (fun y hy => hL y (List.mem_cons_of_mem _ hy))
 
-theorem foldl_below_mem (h : SemiLat op) (L : List β) (d : β) (x : β) (hx : x ∈ L) : Below op (L.foldl op d) x := by
+theorem foldl_below_init (h : SemiLatOn S op) (L : List β) (d : β) (hd : S d) (hL : ∀ x ∈ L, S x) :
+    Below op (L.foldl op d) d := by
+  induction L generalizing d with
+  | nil => exact below_refl h d hd
+  | cons x xs ih =>
+    have hx := hL x List.mem_cons_self
+    have hxs : ∀ y ∈ xs, S y := fun y hy => hL y (List.mem_cons_of_mem _ hy)
+    have hdx := h.closed d x hd hx
+    exact below_trans h (foldl_mem h xs _ hdx hxs) hdx hd (ih (op d x) hdx hxs) (op_below_left h d x hd hx)
+
+theorem foldl_below_mem (h : SemiLatOn S op) (L : List β) (d : β) (hd : S d) (hL : ∀ x ∈ L, S x) (x : β)
+    (hx : x ∈ L) : Below op (L.foldl op d) x := by
   induction L generalizing d with
   | nil => cases hx
   | cons y ys ih =>
+    have hy := hL y List.mem_cons_self
+    have hys : ∀ z ∈ ys, S z := fun z hz => hL z (List.mem_cons_of_mem _ hz)
+    have hdy := h.closed d y hd hy
     rcases List.mem_cons.mp hx with rfl | hx
-    · exact below_trans h (foldl_below_init h ys (op d x)) (op_below_right h d x)
-    · exact ih (op d y) hx
+    · exact below_trans h (foldl_mem h ys _ hdy hys) hdy hy (foldl_below_init h ys (op d x) hdy hys)
+        (op_below_right h d x hd hy)
+    · exact ih (op d y) hdy hys hx
 
-theorem below_foldl (h : SemiLat op) (L : List β) (d z : β) (hd : Below op z d) (hL : ∀ x ∈ L, Below op z x) :
-    Below op z (L.foldl op d) := by
+theorem below_foldl (h : SemiLatOn S op) (L : List β) (d z : β) (hz : S z) (hd : S d) (hL : ∀ x ∈ L, S x)
+    (hzd : Below op z d) (hzL : ∀ x ∈ L, Below op z x) : Below op z (L.foldl op d) := by
   induction L generalizing d with
-  | nil => exact hd
+  | nil => exact hzd
   | cons y ys ih =>
-    exact ih (op d y) (below_op h hd (hL y List.mem_cons_self)) (fun x hx => hL x (List.mem_cons_of_mem _ hx))
+    have hy := hL y List.mem_cons_self
+    exact ih (op d y) (h.closed d y hd hy) (fun x hx => hL x (List.mem_cons_of_mem _ hx))
+      (below_op h hz hd hy hzd (hzL y List.mem_cons_self)) (fun x hx => hzL x (List.mem_cons_of_mem _ hx))
 
 /-- **the fold only sees the set of the elements**: duplicates and order are irrelevant -/
-theorem foldl_eq_of_same_set (h : SemiLat op) (L1 L2 : List β) (d : β) (hs : ∀ x, x ∈ L1 ↔ x ∈ L2) :
-    L1.foldl op d = L2.foldl op d := by
-  apply below_antisymm h
-  · exact below_foldl h L2 d _ (foldl_below_init h L1 d) (fun x hx => foldl_below_mem h L1 d x ((hs x).2 hx))
-  · exact below_foldl h L1 d _ (foldl_below_init h L2 d) (fun x hx => foldl_below_mem h L2 d x ((hs x).1 hx))
+theorem foldl_eq_of_same_set (h : SemiLatOn S op) (L1 L2 : List β) (d : β) (hd : S d) (h1 : ∀ x ∈ L1, S x)
+    (h2 : ∀ x ∈ L2, S x) (hs : ∀ x, x ∈ L1 ↔ x ∈ L2) : L1.foldl op d = L2.foldl op d := by
+  have m1 := foldl_mem h L1 d hd h1
+  have m2 := foldl_mem h L2 d hd h2
+  apply below_antisymm h m1 m2
+  · exact below_foldl h L2 d _ m1 hd h2 (foldl_below_init h L1 d hd h1)
+      (fun x hx => foldl_below_mem h L1 d hd h1 x ((hs x).2 hx))
+  · exact below_foldl h L1 d _ m2 hd h1 (foldl_below_init h L2 d hd h2)
+      (fun x hx => foldl_below_mem h L2 d hd h2 x ((hs x).1 hx))
 
 /-- the same through a map: equal sets of elements give equal folds of their values -/
-theorem foldl_map_eq_of_same_set {γ : Type} (h : SemiLat op) (f : γ → β) (E1 E2 : List γ) (d : β)
-    (hs : ∀ e, e ∈ E1 ↔ e ∈ E2) : (E1.map f).foldl op d = (E2.map f).foldl op d := by
-  apply foldl_eq_of_same_set h
+theorem foldl_map_eq_of_same_set {γ : Type} (h : SemiLatOn S op) (f : γ → β) (E1 E2 : List γ) (d : β) (hd : S d)
+    (hf : ∀ e, S (f e)) (hs : ∀ e, e ∈ E1 ↔ e ∈ E2) : (E1.map f).foldl op d = (E2.map f).foldl op d := by
+  apply foldl_eq_of_same_set h _ _ d hd
+  · intro x hx; obtain ⟨e, _, rfl⟩ := List.mem_map.mp hx; exact hf e
+  · intro x hx; obtain ⟨e, _, rfl⟩ := List.mem_map.mp hx; exact hf e
   intro x
   simp only [List.mem_map]
   constructor
